@@ -294,7 +294,9 @@ class _DirectedSystem(_DynamicalSystem):
 
         # Avoid closing over `self` to keep Numba happy
         def _rhs_impl(t: float, y: np.ndarray, _base_rhs=base_rhs, _fwd=fwd, _flip=flip_idx) -> np.ndarray:
-            dy = _base_rhs(t, y)
+            # Time reversal s = -t: d/ds y(-s) = -f(-s, y).  The base field must be
+            # evaluated at the reversed time (irrelevant for autonomous systems).
+            dy = _base_rhs(_fwd * t, y)
             if _fwd == -1:
                 if _flip is None:
                     return -dy
